@@ -379,4 +379,5 @@ def classify(vob, text, meta, rc, out, secs):
         if name not in vob["obligations"] and name not in expect_fail:
             items.append(dict(name=name, status="undecided", detail="lemma failed: " + failed[name][0][:300], secs=0,
                               clause="supporting lemma"))
-    return dict(status="ok", detail="", secs=secs, items=items)
+    return dict(status="ok", detail="", secs=secs, items=items, edits=meta.get("edits", []),
+                outlined=[o.get("stmt") for o in meta.get("outlined", [])])
